@@ -1094,11 +1094,11 @@ def run_frequency(case):
 # into exit 2.  Outcomes must not depend on machine load, so it is suppressed; filter_too_much and data_too_large
 # (the generator-quality checks) stay on.
 SUBCHECKS = [
-    SubCheck("ops_lap", ops_cases("lap"), run_ops, quick=400, thorough=8000, cost=2.0,
+    SubCheck("ops_lap", ops_cases("lap"), run_ops, quick=400, thorough=8000, cost=2.0, fuzz_runs=24000,
              suppress_too_slow=True, rule="sample after an update while stored priorities take >= 2 distinct values"),
-    SubCheck("ops_per", ops_cases("per"), run_ops, quick=400, thorough=8000, cost=2.5,
+    SubCheck("ops_per", ops_cases("per"), run_ops, quick=400, thorough=8000, cost=2.5, fuzz_runs=24000,
              suppress_too_slow=True, rule="stratified sample after an update while stored priorities take >= 2 distinct values"),
-    SubCheck("ops_subtraj", ops_cases("subtraj"), run_ops, quick=400, thorough=8000, cost=2.5,
+    SubCheck("ops_subtraj", ops_cases("subtraj"), run_ops, quick=400, thorough=8000, cost=2.5, fuzz_runs=24000,
              suppress_too_slow=True, rule="sample after an update with >= 2 distinct priorities and >= 1 masked entry in the filled region"),
     SubCheck("multitask", ops_cases(None, multitask=True), run_ops, quick=400, thorough=8000, cost=3.0,
              suppress_too_slow=True, rule="as the bare buffer of the same kind, behind MultiTaskReplayBuffer with 1-3 tasks"),
